@@ -274,7 +274,7 @@ class Ctx:
             return
         if any(k == key for k, _ in self.violations):
             return
-        d = os.path.join(ROOT, "replays", self.prop)
+        d = os.path.join(os.environ.get("VERIF_REPLAY_DIR") or os.path.join(ROOT, "replays"), self.prop)
         os.makedirs(d, exist_ok=True)
         safe = re.sub(r"[^A-Za-z0-9_.-]", "_", key)[:80]
         path = os.path.join(d, f"{safe}.json")
@@ -359,8 +359,9 @@ class Ctx:
             "wall_s": round(time.time() - self.t0, 2),
             "violations": len(self.violations),
         }
-        os.makedirs(os.path.join(ROOT, "evidence"), exist_ok=True)
-        with open(os.path.join(ROOT, "evidence", f"{self.prop}.json"), "w", encoding="utf-8") as f:
+        evdir = os.environ.get("VERIF_EVIDENCE_DIR") or os.path.join(ROOT, "evidence")
+        os.makedirs(evdir, exist_ok=True)
+        with open(os.path.join(evdir, f"{self.prop}.json"), "w", encoding="utf-8") as f:
             json.dump(ev, f, indent=1, default=repr)
             f.write("\n")
 
